@@ -136,7 +136,7 @@ static void compareRefRef(const ref::File& A, const ref::File& B, std::vector<st
     if (A.frames != B.frames) add("data.floats");
 }
 
-struct CaseOut { std::vector<std::pair<std::string, std::string>> viol; /* (prop|field, detail) */ std::string outcome; };
+struct CaseOut { std::vector<std::pair<std::string, std::string>> viol; /* (prop|field, detail) */ std::string outcome; std::string transcript; };
 
 static void eventsDiff(const OSnap& a, const OSnap& b, std::vector<std::string>& d) {
     if (a.h.nEvents != b.h.nEvents) d.push_back("header.event_count"); if (a.h.evTimes != b.h.evTimes) d.push_back("header.event_times"); if (a.h.evDisp != b.h.evDisp) d.push_back("header.event_flags");
@@ -166,6 +166,7 @@ static void runCase(const std::string& mode, const std::string& choiceTxt, const
     if (verbose) printf("case %s: %zu bytes, load -> %s %s\n", choiceTxt.c_str(), bytes.size(), outcomeName(oc), what.c_str());
     if (oc != OK) { out.outcome = std::string("load:") + outcomeName(oc); if (mode == "c02" || mode == "c12") out.viol.push_back({(mode == "c02" ? std::string("C02") : std::string("C12")) + "|load_refused/" + outcomeName(oc), "well-formed file refused: " + what}); return; }
     OSnap s1 = snapObject(*G1);
+    { std::string t; dumpObject(t, s1); out.transcript = "loaded=" + hashStr(t).hex(); }
     if (mode == "c12") {
         std::string kind = choiceTxt.substr(0, choiceTxt.find(':')); if (kind == "hdr") kind = choiceTxt.substr(0, choiceTxt.find('='));
         std::vector<std::string> diffs; compareWithRef(s1, F, diffs);
@@ -190,7 +191,7 @@ static void runCase(const std::string& mode, const std::string& choiceTxt, const
         std::string pf = dir + "/g" + std::to_string(g) + ".c3d";
         oc = guarded([&] { cur->write(pf); }, &what);
         if (oc != OK) { out.viol.push_back({std::string("C04|save_throws/gen") + std::to_string(g) + "/" + outcomeName(oc), what}); out.outcome = "save-throws"; return; }
-        std::string fb; readAll(pf, fb);
+        std::string fb; readAll(pf, fb); out.transcript += " gen" + std::to_string(g) + "=" + hashStr(fb).hex();
         if (g >= 3 && fb != prevBytes) { size_t off = 0; while (off < fb.size() && off < prevBytes.size() && fb[off] == prevBytes[off]) ++off; out.viol.push_back({"C04|bytes_differ/gen" + std::to_string(g - 1) + "_vs_gen" + std::to_string(g) + (off < 512 ? "/header" : "/body"), "first differing offset " + S(off) + " sizes " + S(prevBytes.size()) + "/" + S(fb.size())}); }
         prevBytes = fb;
         if (g == generations) break;
@@ -207,11 +208,11 @@ static void runCase(const std::string& mode, const std::string& choiceTxt, const
 struct FCrumb { volatile uint64_t idx; volatile uint64_t progress; volatile uint32_t done; };
 
 int main(int argc, char** argv) {
-    std::string mode = "c02", tier = "quick", scratch, out, oneCase, emit, emitDir; int devs = 1, workers = 16; double deadlineS = 1e9; std::vector<std::string> vendorFiles;
+    std::string mode = "c02", tier = "quick", scratch, out, oneCase, emit, emitDir; int devs = 1, workers = 16; double deadlineS = 1e9; std::vector<std::string> vendorFiles; std::string transcript;
     for (int i = 1; i < argc; ++i) {
         std::string a = argv[i]; auto nxt = [&]() { if (i + 1 >= argc) exit(2); return std::string(argv[++i]); };
         if (a == "--mode") mode = nxt(); else if (a == "--devs") devs = atoi(nxt().c_str()); else if (a == "--tier") tier = nxt(); else if (a == "--scratch") scratch = nxt(); else if (a == "--out") out = nxt();
-        else if (a == "--workers") workers = atoi(nxt().c_str()); else if (a == "--deadline") deadlineS = atof(nxt().c_str()); else if (a == "--case") oneCase = nxt(); else if (a == "--emit") emit = nxt(); else if (a == "--emit-dir") emitDir = nxt(); else if (a == "--vendor") vendorFiles.push_back(nxt());
+        else if (a == "--workers") workers = atoi(nxt().c_str()); else if (a == "--deadline") deadlineS = atof(nxt().c_str()); else if (a == "--case") oneCase = nxt(); else if (a == "--emit") emit = nxt(); else if (a == "--emit-dir") emitDir = nxt(); else if (a == "--vendor") vendorFiles.push_back(nxt()); else if (a == "--transcript") transcript = nxt();
         else { fprintf(stderr, "unknown arg %s\n", a.c_str()); return 2; }
     }
     if (scratch.empty()) scratch = "/dev/shm/ezc3d-verif-file." + std::to_string(getpid());
@@ -241,7 +242,7 @@ int main(int argc, char** argv) {
         pid_t p = fork();
         if (p == 0) {
             std::string base = scratch + "/w" + std::to_string(wi); mkdir(base.c_str(), 0755);
-            FILE* fv = fopen((base + ".viol").c_str(), "a"); FILE* fo = fopen((base + ".outc").c_str(), "a");
+            FILE* fv = fopen((base + ".viol").c_str(), "a"); FILE* fo = fopen((base + ".outc").c_str(), "a"); FILE* ft = transcript.empty() ? nullptr : fopen((base + ".trs").c_str(), "a");
             { int efd = open((base + ".err").c_str(), O_WRONLY | O_CREAT | O_TRUNC, 0644); dup2(efd, 2); close(efd); }
             for (uint64_t i = from[wi]; i < cases.size(); ++i) {
                 if ((int)(i % (uint64_t)workers) != wi) continue;
@@ -250,12 +251,13 @@ int main(int argc, char** argv) {
                 CaseOut co; runCase(mode, cases[i], base, co, false, generations);
                 for (auto& v : co.viol) { std::string d = v.second; for (auto& ch : d) if (ch == '\t' || ch == '\n') ch = ' '; fprintf(fv, "%s\t%llu\t%s\n", v.first.c_str(), (unsigned long long)i, d.c_str()); }
                 fprintf(fo, "%llu\t%s\n", (unsigned long long)i, co.outcome.c_str()); fflush(fv); fflush(fo);
+                if (ft) fprintf(ft, "%llu\t%s\t%s\t%s\n", (unsigned long long)i, cases[i].c_str(), co.outcome.c_str(), co.transcript.c_str());
             }
-            crumbs[wi].done = 1; fclose(fv); fclose(fo); _exit(0);
+            crumbs[wi].done = 1; fclose(fv); fclose(fo); if (ft) fclose(ft); _exit(0);
         }
         pids[wi] = p;
     };
-    for (int wi = 0; wi < workers; ++wi) for (const char* e : {".viol", ".outc", ".err"}) unlink((scratch + "/w" + std::to_string(wi) + e).c_str());
+    for (int wi = 0; wi < workers; ++wi) for (const char* e : {".viol", ".outc", ".err", ".trs"}) unlink((scratch + "/w" + std::to_string(wi) + e).c_str());
     int live = 0; for (int wi = 0; wi < workers; ++wi) { spawn(wi); live++; }
     std::vector<double> lastProg((size_t)workers, nowS()); std::vector<uint64_t> lastVal((size_t)workers, 0);
     while (live > 0) {
@@ -272,6 +274,11 @@ int main(int argc, char** argv) {
             }
         }
         if (!any) usleep(2000);
+    }
+    if (!transcript.empty()) {   // C19: merge the per-worker transcripts in case order
+        std::vector<std::string> lines(cases.size());
+        for (int wi = 0; wi < workers; ++wi) { std::ifstream ftr(scratch + "/w" + std::to_string(wi) + ".trs"); std::string line; while (std::getline(ftr, line)) { uint64_t i = strtoull(line.c_str(), nullptr, 10); if (i < lines.size()) lines[i] = line; } }
+        FILE* tf = fopen(transcript.c_str(), "w"); for (auto& l : lines) fprintf(tf, "%s\n", l.c_str()); fclose(tf);
     }
     // merge
     std::map<std::string, std::vector<std::pair<uint64_t, std::string>>> byField;   // "prop|field" -> (case idx, detail)
